@@ -17,6 +17,34 @@ def step (line : String) : String :=
     match bytesOfHex p with
     | some p => hexOrDash (render (norm p))
     | none => "bad-op"
+  | ["basename", p] =>
+    match bytesOfHex p with
+    | some p => hexOrDash (basename p)
+    | none => "bad-op"
+  | ["safename", n] =>
+    match bytesOfHex n with
+    | some n => hexOrDash (safeName n)
+    | none => "bad-op"
+  | ["history", outdir, reqs, existing] =>
+    -- reqs: `name:ext,name:ext,…` (hex, `-` = empty)
+    let parseReq (t : String) : Option (Bytes × Bytes) :=
+      match t.splitOn ":" with
+      | [n, e] => match bytesOfHex n, bytesOfHex e with
+        | some n, some e => some (n, e)
+        | _, _ => none
+      | _ => none
+    match bytesOfHex outdir, (if reqs == "-" then some [] else (reqs.splitOn ",").mapM parseReq), namesOf existing with
+    | some o, some rs, some ex =>
+      let out := exportHistory o rs ex
+      if out.isEmpty then "-" else ",".intercalate (out.map (fun r => hexOrDash r.1 ++ ":" ++ hexOrDash r.2))
+    | _, _, _ => "bad-op"
+  | ["cmapenv", env, pkg, name] =>
+    -- env: `none` (CMAP_PATH not set) or hex (`-` = set to the empty string)
+    match (if env == "none" then some none else (bytesOfHex env).map some), bytesOfHex pkg, bytesOfHex name with
+    | some e, some pk, some n =>
+      let ps := cmapProbes (cmapDirs e pk) n
+      if ps.isEmpty then "-" else ",".intercalate (ps.map hexOrDash)
+    | _, _, _ => "bad-op"
   | ["cmap", dirs, name] =>
     match namesOf dirs, bytesOfHex name with
     | some ds, some n =>
